@@ -1,0 +1,142 @@
+//go:build verif
+
+package requests
+
+// Contracts for request validation and signing-task expansion (checked by /verif/gocv).
+
+//@ func (*DefaultRequest).Validate
+//@   safety C18
+//@   requires r != nil
+//@   pure
+
+//@ func (*MessageToSign).Validate
+//@   safety C18
+//@   requires m != nil
+//@   pure
+//@   ensures result == nil ==> len(m.MessageID) > 0 && len(m.Payload) > 0
+
+//@ func (*SigningTask).Validate
+//@   safety C18
+//@   requires m != nil
+//@   pure
+//@   ensures[C03.taskvalid] result == nil ==> len(m.MessageID) > 0 && (len(m.Payload) > 0 || m.RangeStart <= m.RangeEnd)
+
+//@ func (*SigningBatchProposalStartRequest).Validate
+//@   safety C18
+//@   requires r != nil
+//@   pure
+//@   ensures[C06.startvalid] result == nil ==> len(r.BatchID) > 0 && len(r.SigningTasks) > 0 && r.ParticipantId >= 0
+
+//@ func (*PartialSign).Validate
+//@   safety C18
+//@   requires s != nil
+//@   pure
+//@   ensures result == nil ==> len(s.MessageID) > 0 && len(s.Sign) > 0
+
+//@ func (*SigningProposalBatchPartialSignRequests).Validate
+//@   safety C18
+//@   requires r != nil
+//@   pure
+//@   ensures[C06.psvalid] result == nil ==> len(r.BatchID) > 0 && r.ParticipantId >= 0 && len(r.PartialSigns) > 0
+
+//@ func (*SignatureProposalParticipantsListRequest).Validate
+//@   safety C18
+//@   requires r != nil
+//@   pure
+//@   ensures[C05.initvalid] result == nil ==> len(r.Participants) >= 2 && r.SigningThreshold >= 2 && r.SigningThreshold <= len(r.Participants)
+//@   ensures[C18.nonnil] result == nil ==> (forall i int :: 0 <= i && i < len(r.Participants) ==> r.Participants[i] != nil)
+//@   loop 0 invariant forall i int :: 0 <= i && i <= $i ==> r.Participants[i] != nil
+//@   loop 1 invariant forall i int :: 0 <= i && i < len(r.Participants) ==> r.Participants[i] != nil
+
+//@ func (*SignatureProposalParticipantRequest).Validate
+//@   safety C18
+//@   requires r != nil
+//@   pure
+//@   ensures[C05.respvalid] result == nil ==> r.ParticipantId >= 0
+
+//@ func (*SignatureProposalConfirmationErrorRequest).Validate
+//@   safety C18
+//@   requires r != nil
+//@   pure
+//@   ensures[C05.errvalid] result == nil ==> r.ParticipantId >= 0 && r.Error != nil
+
+//@ func (*DKGProposalCommitConfirmationRequest).Validate
+//@   safety C18
+//@   requires r != nil
+//@   pure
+//@   ensures[C05.commitvalid] result == nil ==> r.ParticipantId >= 0 && len(r.Commit) > 0
+
+//@ func (*DKGProposalDealConfirmationRequest).Validate
+//@   safety C18
+//@   requires r != nil
+//@   pure
+//@   ensures[C05.dealvalid] result == nil ==> r.ParticipantId >= 0 && len(r.Deal) > 0
+
+//@ func (*DKGProposalResponseConfirmationRequest).Validate
+//@   safety C18
+//@   requires r != nil
+//@   pure
+//@   ensures[C05.responsevalid] result == nil ==> r.ParticipantId >= 0 && len(r.Response) > 0
+
+//@ func (*DKGProposalMasterKeyConfirmationRequest).Validate
+//@   safety C18
+//@   requires r != nil
+//@   pure
+//@   ensures[C05.mkvalid] result == nil ==> r.ParticipantId >= 0 && len(r.MasterKey) > 0
+
+//@ func (*DKGProposalConfirmationErrorRequest).Validate
+//@   safety C18
+//@   requires r != nil
+//@   pure
+//@   ensures[C05.dkgerrvalid] result == nil ==> r.ParticipantId >= 0 && r.Error != nil
+
+// A baked position is refused outside 0..18631 (the embedded list has 18632 lines and a trailing empty one);
+// inside, the message is the consensus-spec signing root of the validator index written on that line.
+//@ import wc_rotation "github.com/lidofinance/dc4bc/pkg/wc_rotation"
+//@ func ReconstructBakedMessage
+//@   safety C18,C17
+//@   pure
+//@   ensures[C03.baked.fresh] result1 == nil ==> fresh(result0.Payload) && (0 <= id && id < 18632)
+//@   ensures[C17.list.refuse] (id < 0 || id >= 18632) ==> result1 != nil
+//@   ensures[C17.list.message] result1 == nil ==> result0.BakedDataPayload && result0.MessageID == splitPart(wc_rotation.ValidatorsIndexes, "\n", id) && len(result0.Payload) == 32 && (forall k int :: 0 <= k && k < 32 ==> result0.Payload[k] == specSigningRoot(uint64(decimalValue(splitPart(wc_rotation.ValidatorsIndexes, "\n", id))))[k])
+
+// Every participant expands a proposal by the same rule: an explicit task becomes one message carrying exactly
+// the task's identifier, file name and payload; a baked range [RangeStart, RangeEnd) becomes the baked message
+// of every position in it, in ascending order; the expansion writes nothing but its fresh result.
+//@ func TasksToMessages
+//@   safety C18,C03
+//@   pure
+//@   assert@call ReconstructBakedMessage[C03.range.index] id == i && m.RangeStart <= i && i < m.RangeEnd
+//@   loop 0 invariant forall j int :: 0 <= j && j < len(signData) ==> bakedOK(signData[j]) && explicitOK(signData[j], msgs, $i)
+//@   loop 1 invariant m.RangeStart <= i
+//@   loop 1 invariant forall j int :: 0 <= j && j < len(signData) ==> bakedOK(signData[j]) && explicitOK(signData[j], msgs, $i)
+//@   ensures[C03.expand.baked] result1 == nil ==> (forall j int :: 0 <= j && j < len(result0) ==> bakedOK(result0[j]))
+//@   ensures[C03.expand.explicit] result1 == nil ==> (forall j int :: 0 <= j && j < len(result0) ==> explicitOK(result0[j], msgs, len(msgs) - 1))
+//@ spec func bakedOK(m MessageToSign) bool = m.BakedDataPayload ==> len(m.Payload) == 32 && (exists id int :: 0 <= id && id < 18632 && m.MessageID == splitPart(wc_rotation.ValidatorsIndexes, "\n", id)) && (forall k int :: 0 <= k && k < 32 ==> m.Payload[k] == specSigningRoot(uint64(decimalValue(m.MessageID)))[k])
+//@ spec func explicitOK(m MessageToSign, tasks []SigningTask, upto int) bool = !m.BakedDataPayload ==> (exists k int :: 0 <= k && k <= upto && k < len(tasks) && tasks[k].Payload != nil && m.Payload == tasks[k].Payload && m.MessageID == tasks[k].MessageID && m.File == tasks[k].File)
+
+// ---- JSON judgements (derived from the type declarations on every run, see /verif/gocv/jsonrt.go)
+// What is proposed on the board is what every consumer decodes: the proposal, its tasks, the expanded messages
+// and the partial-signature answers survive encode/decode exactly (nil-ness of payloads included, because
+// TasksToMessages tells an explicit task from a baked range by Payload != nil).
+//@ roundtrip[C03.rt.task] SigningTask
+//@ roundtrip[C03.rt.tasks] []SigningTask
+//@ roundtrip[C03.rt.proposal] SigningBatchProposalStartRequest
+//@ roundtrip[C03.rt.message] MessageToSign
+//@ roundtrip[C03.rt.partial] SigningProposalBatchPartialSignRequests
+// every request a board message can carry (the FSM restores and re-reads them)
+//@ roundtrip[C19.rt.req.participants,C08.rt.req.participants] SignatureProposalParticipantsListRequest
+//@ roundtrip[C19.rt.req.participant,C08.rt.req.participant] SignatureProposalParticipantRequest
+//@ roundtrip[C19.rt.req.sigerror,C08.rt.req.sigerror] SignatureProposalConfirmationErrorRequest
+//@ roundtrip[C19.rt.req.commit,C08.rt.req.commit] DKGProposalCommitConfirmationRequest
+//@ roundtrip[C19.rt.req.deal,C08.rt.req.deal] DKGProposalDealConfirmationRequest
+//@ roundtrip[C19.rt.req.response,C08.rt.req.response] DKGProposalResponseConfirmationRequest
+//@ roundtrip[C19.rt.req.masterkey,C08.rt.req.masterkey] DKGProposalMasterKeyConfirmationRequest
+//@ roundtrip[C19.rt.req.dkgerror,C08.rt.req.dkgerror] DKGProposalConfirmationErrorRequest
+
+// FSMError is stored inside round dumps as the JSON string of its message (the decoder side, json.Unmarshal into
+// &re.ErrorMsg, inverts exactly that encoding: trusted library behaviour)
+//@ func (FSMError).MarshalJSON
+//@   safety C18,C19
+//@   pure
+//@   ensures[C19.json.fsmerror,C08.json.fsmerror] result1 == nil && content(result0) == jsonStr(re.ErrorMsg)
